@@ -77,6 +77,7 @@ type treeOpts struct {
 	siblings         bool // tracked files named like another entry plus a temp-file suffix
 	dupPair          bool // two top-level files with identical contents (one cache object for both)
 	cacheNames       bool // sub-directories named like the cache directories the harness configures
+	ensureSubdir     bool // the top level has at least one sub-directory
 }
 
 func genTree(r *rng, depth int, to treeOpts, pool *[][]byte, s *summary) *Node {
@@ -100,6 +101,17 @@ func genTree(r *rng, depth int, to treeOpts, pool *[][]byte, s *summary) *Node {
 			n.Ents = append(n.Ents, Ent{name, sub})
 		} else {
 			n.Ents = append(n.Ents, Ent{name, nFile(genContent(r, pool))})
+		}
+	}
+	if to.ensureSubdir && depth == 0 {
+		has := false
+		for _, e := range n.Ents {
+			if e.N.Kind == "d" {
+				has = true
+			}
+		}
+		if !has {
+			n.set("sub_always", nDir(Ent{"inner.txt", nFile(genContent(r, pool))}))
 		}
 	}
 	if to.dupPair && depth == 0 {
